@@ -30,6 +30,7 @@
              PRmIndex i ; PRmPack p ; PDone.   BAbort / PAbort: the command stops.
    Any interleaving of any number of backups with (non-overlapping) prunes is a path. *)
 From Verif.Base Require Import Tactics.
+From Verif.C10 Require Import Extracted.
 Local Open Scope nat_scope.
 
 Definition pid := nat.
@@ -149,6 +150,29 @@ Definition stays_listed (t : option todo) : bool :=
   match t with Some Keep | Some Recover => true | _ => false end.
 Definition is_delete (t : option todo) : bool := match t with Some Delete => true | _ => false end.
 
+(* ---- source facts (Extracted.v, regenerated from prune.rs on every run) enter here *)
+(* the time an index entry gets: `into_index_pack_with_time(prune_time)` stamps, `into_index_pack(prune_time)`
+   keeps the old time (`old`; an unmarked pack has no mark time: 0 = expired long ago) *)
+Definition mark_time (src : tsrc) (stamp old : time) : time :=
+  match src with Stamp => stamp | KeepOld => old end.
+(* decide_packs (true, 0, _): `plan_time - keep_delete >= mark_time` (or `>`), in natural numbers *)
+Definition expired (kd T tm : time) : bool :=
+  if expiry_nonstrict then tm + kd <=? T else tm + kd <? T.
+(* PrunePlan::new takes the plan time after the index load, the snapshot scan and the pack listing *)
+Definition plan_time (start now : time) : time := if plan_time_after_scan then now else start.
+(* model's reading of the executor table; `source_exec_table_matches_model` (Props.v) pins it to the source *)
+Definition model_section (t : todo) : option isec :=
+  match t with
+  | Keep | Recover => Some Unmarked
+  | Repack | MarkDelete | KeepMarked => Some Marked
+  | Delete => None
+  end.
+Definition source_section (t : todo) : option isec :=
+  match t with
+  | Keep => Some sec_Keep | Recover => Some sec_Recover | Repack => Some sec_Repack
+  | MarkDelete => Some sec_MarkDelete | KeepMarked => Some sec_KeepMarked | Delete => None
+  end.
+
 (* what decide_packs + check_existing_packs + filter_index_files guarantee about a plan *)
 Definition plan_ok (kd T : time) (v : list (iid * ifile)) (used : list blob) (existing : list pid)
            (asg : list (pid * todo)) (rw : list iid) : bool :=
@@ -163,7 +187,7 @@ Definition plan_ok (kd T : time) (v : list (iid * ifile)) (used : list blob) (ex
              match todo_of asg p with
              | Some KeepMarked => true
              | Some Recover => memb p existing && memb i rw
-             | Some Delete => (tm + kd <=? T) && memb i rw
+             | Some Delete => expired kd T tm && memb i rw
              | _ => false
              end) (dmk v)
   && forallb (fun b =>
@@ -185,11 +209,14 @@ Definition new_index (q : pst) : ifile :=
      mk :=
        flat_map (fun x => if memb (fst x) (prw q) then
                             match todo_of (pasg q) (fst (snd x)) with
-                            | Some Repack | Some MarkDelete => [(snd x, T)] | _ => [] end else []) (dunm (pview q))
+                            | Some Repack => [(snd x, mark_time ts_Repack T 0)]
+                            | Some MarkDelete => [(snd x, mark_time ts_MarkDelete T 0)]
+                            | _ => [] end else []) (dunm (pview q))
        ++ flat_map (fun x => if memb (fst x) (prw q) then
                             match todo_of (pasg q) (fst (fst (snd x))) with
-                            | Some KeepMarked => [snd x] | _ => [] end else []) (dmk (pview q))
-       ++ map (fun p => ((p, []), T)) (punref q) |}.
+                            | Some KeepMarked => [(fst (snd x), mark_time ts_KeepMarked T (snd (snd x)))]
+                            | _ => [] end else []) (dmk (pview q))
+       ++ map (fun p => ((p, []), mark_time ts_Unreferenced T 0)) (punref q) |}.
 
 Definition delete_list (q : pst) : list pid :=
   flat_map (fun x => if is_delete (todo_of (pasg q) (fst (fst (snd x)))) then [fst (fst (snd x))] else []) (dmk (pview q)).
@@ -311,9 +338,9 @@ Definition step (kd : time) (s : st) (e : ev) : option st :=
       | Some q => match pph q with
                   | PScanned =>
                       let existing := map fst (packs s) in
-                      if plan_ok kd (clock s) (pview q) (pused q) existing asg rw then
+                      if plan_ok kd (plan_time (plstart q) (clock s)) (pview q) (pused q) existing asg rw then
                         Some (set_prn s (Some {| pph := PPlanned; plstart := plstart q; psidmark := psidmark q; pview := pview q;
-                                                 pused := pused q; pscanmark := pscanmark q; ptime := clock s; pasg := asg; prw := rw;
+                                                 pused := pused q; pscanmark := pscanmark q; ptime := plan_time (plstart q) (clock s); pasg := asg; prw := rw;
                                                  punref := filter (fun p => negb (memb p (view_pids (pview q)))) existing;
                                                  pnew := []; pirm := []; pdel := [] |}))
                       else None
